@@ -72,6 +72,9 @@ type Case struct {
 	Options   []Option     `json:"options"`
 	Uses      []int        `json:"uses"` // palette indices the graphic paints with
 	Height    int          `json:"height"`
+	// Prefix > 0: the caller first decodes with the first Prefix options only,
+	// passed as a sub-slice of the same list (theme[:k]...), then with all.
+	Prefix int `json:"prefix,omitempty"`
 }
 
 // modelConvert is the documented conversion: any colour model to 8-bit
@@ -165,6 +168,30 @@ func checkOptions(c Case) error {
 		case "at":
 			opts = append(opts, decode.WithColorAt(o.Index, o.Color.Color()))
 			model[o.Index] = modelConvert(o.Color.Color())
+		}
+	}
+	if c.Prefix > 0 && c.Prefix < len(opts) {
+		// an earlier decode with a prefix of the very same option list must not disturb the list
+		pm := [64]color.RGBA(ops.DefaultPalette())
+		if c.Suggested != nil {
+			pm = [64]color.RGBA(*c.Suggested)
+		}
+		for _, o := range c.Options[:c.Prefix] {
+			if o.Kind == "palette" {
+				pm = [64]color.RGBA(*o.Palette)
+			} else {
+				pm[o.Index] = modelConvert(o.Color.Color())
+			}
+		}
+		prec := &ops.Recorder{}
+		if err := decode.Decode(prec, src, opts[:c.Prefix]...); err != nil {
+			return harness.Violatef("c14/decode-error", "Decode with a prefix of the options: %v", err)
+		}
+		gp := prec.Ops[0].Palette()
+		for i := range gp {
+			if spec.Premultiplied(pm[i]) && gp[i] != pm[i] {
+				return harness.Violatef("c14/reset-palette", "with the first %d options: palette entry %d passed to Reset is %v, expected %v", c.Prefix, i, gp[i], pm[i])
+			}
 		}
 	}
 	sanitised := model
@@ -340,6 +367,10 @@ func TestOptions(t *testing.T) {
 		}
 		if c.Suggested != nil {
 			labels = append(labels, "has-suggested-palette")
+		}
+		if no >= 2 && rapid.Bool().Draw(t, "prefix") {
+			c.Prefix = rapid.IntRange(1, no-1).Draw(t, "prefixlen")
+			labels = append(labels, "decoded-first-with-a-prefix-of-the-option-list")
 		}
 		subOpt.See(c, no > 0 && touched, harness.HashJSON(c), labels...)
 		subOpt.Run(t, c)
